@@ -193,6 +193,11 @@ def handle_quic_packet(packet: Packet, keylog, quic_sessions: list[QuicSession],
 def run():
     """Starts the program"""
     args = arg_parser_init()
+    # every run starts from fresh module state (run() may be called more than once in one process)
+    server_ports[:] = [443, 44330]
+    keylog.clear()
+    sessions.clear()
+    quic_sessions.clear()
     keep_original_ports = args.keep_original_ports
     portmap = get_port_map(args)
 
